@@ -48,7 +48,7 @@ the harness' own DER writer) is compared with the interval-set model for canonic
 Non-trivial = a sequence with >= 3 blocks, not sorted by lower bound, containing an overlap or adjacency (for \
 prefixes: a range needing >= 2 prefixes). enum-build/enum-pairs: complete enumeration of all sequences of <= 3 \
 blocks and all pairs of representable sets over 8-point domains (low, high, both ends with the gap between, \
-around 2^31 resp. ::ffff:0:0) for each family, oracle = bitmap over the domain's atoms, cross-checked with iset. Iterator laws: AsBlocks::iter, iter_asns, AsBlock::iter / into_iter (also for blocks at the top of the number space), IpBlocks::iter and the range-to-prefix iterators are compared through nth, skip, take, step_by, count, last, fold and size_hint (before and after advancing) with what repeated next() yields. constants also: resource builders that were handed nothing (new(), Default, blocks(|_| ())) denote the empty set and never 'inherit'. rset also: the limit makes a serde round trip (explicitly empty limits for a type forced in a quarter of the limited cases) and must compare and apply identically.";
+around 2^31 resp. ::ffff:0:0) for each family, oracle = bitmap over the domain's atoms, cross-checked with iset. Iterator laws: AsBlocks::iter, iter_asns, AsBlock::iter / into_iter (also for blocks at the top of the number space), IpBlocks::iter and the range-to-prefix iterators are compared through nth, skip, take, step_by, count, last, fold and size_hint (before and after advancing) with what repeated next() yields. constants also: resource builders that were handed nothing (new(), Default, blocks(|_| ())) denote the empty set and never 'inherit'. rset also: the limit makes a serde round trip (explicitly empty limits for a type forced in a quarter of the limited cases) and must compare and apply identically. der also offers the harness-written IP lists to BER-mode decoders with non-zero unused bits in their BIT STRINGs (refused or the same set); rset also reads the limit from the older serde spellings (v4 / v6, \"none\": refused or an equal limit); one related-set case in eight starts from a sequence of up to 40 raw blocks.";
 
 fn bad<E: std::fmt::Display>(what: &str) -> impl Fn(E) -> Fail + '_ {
     move |e| Fail::new(format!("{}: {}", what, e))
